@@ -7,4 +7,17 @@ pub fn vx_string_add(a: String, b: &str) -> (r: String)
     ensures r@ == a@ + b@
 { a + b }
 
+// R11 shim for `format!` with exactly one `{}` placeholder. `display_view` is what Display writes for the argument
+// (axioms for str-like types below; uninterpreted for anything else).
+pub uninterp spec fn display_view<T: ?Sized>(a: &T) -> Seq<char>;
+pub broadcast axiom fn axiom_display_str(s: &str) ensures #[trigger] display_view::<str>(s) == s@;
+pub broadcast axiom fn axiom_display_str_ref<'a>(s: &&'a str) ensures #[trigger] display_view::<&'a str>(s) == (*s)@;
+pub broadcast axiom fn axiom_display_string(s: &String) ensures #[trigger] display_view::<String>(s) == s@;
+pub broadcast axiom fn axiom_display_string_ref<'a>(s: &&'a String) ensures #[trigger] display_view::<&'a String>(s) == (*s)@;
+pub broadcast group group_display { axiom_display_str, axiom_display_str_ref, axiom_display_string, axiom_display_string_ref }
+#[verifier::external_body]
+pub fn vx_fmt1<T: core::fmt::Display + ?Sized>(pre: &str, a: &T, post: &str) -> (r: String)
+    ensures r@ == pre@ + display_view(a) + post@
+{ format!("{pre}{a}{post}") }
+
 } // verus!
